@@ -390,6 +390,33 @@ def run_c16(run: core.Run, n_specs: int, n_wheels: int) -> None:
                 if compat[(ca, w)] is not None and compat[(cb, w)] is None:
                     run.fail(core.Failure(f"widen|{ca}|{cb}|{w}", f"wheel {w} compatible with {ca} but not with wider {cb}",
                                           {"op": "widen", "a": list(ca), "b": list(cb), "wheel": list(w)}))
+    # deterministic widening stream: a fixed family of requires-python specs containing every kind of bound on the same
+    # minor (inclusive / exclusive upper and lower, pins, wildcard exclusions that turn a range into a union), all ordered
+    # pairs A within B, two environment shapes, and a wheel universe with a cpXY / cpXY-abi3 / pyXY wheel for every minor
+    # they name (seed C16d: an abi3 shortcut that ignores include_max only for plain ranges)
+    wrps = ["", ">=3.6", ">=3.8", ">3.8", ">=3.8.0", "<=3.8", "<3.8", "==3.8", "==3.8.*", "<=3.8,!=3.6.*", ">=3.6,<=3.8", ">=3.6,<3.9",
+            "<3.9", "<=3.9", ">=3.7,!=3.8.*", ">=3.8,<3.8.1", "<3.0||>=3.8", "<=3.8||>=3.10", "==3.8.0", ">=3.6,<=3.8,!=3.7.*"]
+    wwheels = [(py, abi, "any") for m in (6, 7, 8, 9, 10) for py, abi in
+               ((f"cp3{m}", "abi3"), (f"cp3{m}", f"cp3{m}"), (f"cp3{m}", "none"), (f"py3{m}", "none"), (f"pp3{m}", f"pypy3{m}_pp73"))] + \
+              [("py3", "none", "any"), ("py2.py3", "none", "any"), ("cp38", "abi3", "manylinux_2_17_x86_64")]
+    for pl, im in (("-", "-"), ("manylinux_2_28_x86_64", "cpython"), ("-", "pypy")):
+        wenvs = [((rp, pl, im), mk_env((rp, pl, im))) for rp in wrps]
+        wc = {}
+        for c, e in wenvs:
+            for w in wwheels:
+                try:
+                    wc[(c, w)] = e.compatibility(w[0].split("."), w[1].split("."), w[2].split("."))
+                except Exception as ex:  # noqa: BLE001
+                    wc[(c, w)] = "raise:" + type(ex).__name__
+        for (ca, a), (cb, b) in itertools.product(wenvs, wenvs):
+            if ca == cb or not all((not smem(a.requires_python, v)) or smem(b.requires_python, v) for v in probes) \
+                    or not subset_structural(a.requires_python, b.requires_python):
+                continue
+            for w in wwheels:
+                n_oracle += 1
+                if wc[(ca, w)] is not None and wc[(cb, w)] is None:
+                    run.fail(core.Failure(f"widen|{ca}|{cb}|{w}", f"wheel {w} compatible with {ca} but not with wider {cb}",
+                                          {"op": "widen", "a": list(ca), "b": list(cb), "wheel": list(w)}))
     # newer release of the same OS/arch accepts every tag of the older one
     fam = {}
     for name in platforms("quick"):
